@@ -12,9 +12,10 @@
     options that tile it, the advertised payload size, extended rcode, version and flags read from the
     OPT record's class and TTL bytes.  The remaining fields (id, opcode, rcode) are single reads of
     the header bytes by definition of the model; their agreement with the implementation is decided by
-    the correspondence on every run. *)
+    the correspondence on every run.  C04_summary_of_opt_record says which record those OPT values come
+    from: the one OPT record of the declarative reading of the three record sections. *)
 From DV Require Import Model.Base Model.Parser Model.Header Model.Readers Spec.NameSpec Spec.RecordSpec Proofs.Hoare Proofs.HeaderBits
-  Proofs.SummaryBits Proofs.ReadersLabels Proofs.QuestionSpec Proofs.EdnsFacts.
+  Proofs.SummaryBits Proofs.ReadersLabels Proofs.QuestionSpec Proofs.EdnsFacts Proofs.WalkSkip Proofs.EdnsPlain.
 Local Open Scope N_scope.
 
 Theorem C04_flags_word : forall w x i, w < 65536 ->
@@ -53,6 +54,20 @@ Print Assumptions C04_question_decoding_unique.
 Theorem C04_edns_summary : forall p v, bytes_ok p -> parse p = Ok v -> esum_v p v.
 Proof. exact parse_esum. Qed.
 Print Assumptions C04_edns_summary.
+
+(** The summary is that of the OPT record of the declarative reading (the first and only one): payload size = its class,
+    extended rcode / version / flags = the bytes of its TTL, option count = the number of options tiling its data, options
+    starting 11 bytes after the record's first byte (root owner); the empty summary when the reading has no OPT record. *)
+Theorem C04_summary_of_opt_record : forall p v, bytes_ok p -> parse p = Ok v ->
+  exists an ns ar qe e1 e2 la ln lr,
+    pp_packet v = p /\ cname p 12 qe /\
+    hdr_ancount p = Ok an /\ hdr_nscount p = Ok ns /\ hdr_arcount p = Ok ar /\
+    records_at p (qe + 4) la e1 /\ length la = N.to_nat an /\
+    records_at p e1 ln e2 /\ length ln = N.to_nat ns /\
+    records_at p e2 lr (length p) /\ length lr = N.to_nat ar /\
+    summary_of p (find is_opt (la ++ ln ++ lr)) v.
+Proof. exact parse_summary. Qed.
+Print Assumptions C04_summary_of_opt_record.
 
 (** Non-vacuity: a query for "Ab.c" AAAA whose name is accepted; the text getter lower-cases it. *)
 Example C04_sample_question :
